@@ -526,6 +526,33 @@ Fixpoint pick_dd_set_z (fuel : nat) (s : snap) (e set : edge) : option (snap * e
 
 Definition pick_cube_dd_set_z (s : snap) (e set : edge) := pick_dd_set_z (S (nlevels s)) s e set.
 
+(** the literals of a ZBDD cube diagram, top-down, in the form [mk_cube
+    add_lit_z] takes them: [(l, true)]: a node with [hi == lo], the variable of
+    level [l] does not occur; [(l, false)]: a node with Empty else-child, positive
+    literal; a level without node: negative literal *)
+Fixpoint cube_lits_z (fuel : nat) (s : snap) (e : edge) : option (list (nat * bool)) :=
+  match fuel with
+  | O => None
+  | S f =>
+    match view_plain s e with
+    | CErr => None
+    | CTerm b => if b then Some [] else None
+    | CNode l hi lo =>
+      if edge_eqb hi lo then option_map (cons (l, true)) (cube_lits_z f s hi)
+      else if is_false view_plain s lo then option_map (cons (l, false)) (cube_lits_z f s hi)
+      else None
+    end
+  end.
+
+Inductive zlit := ZPos | ZNeg | ZAbsent.
+
+(** how the variable of [level] occurs in such a literal list *)
+Fixpoint zlit_of (lits : list (nat * bool)) (level : nat) : zlit :=
+  match lits with
+  | [] => ZNeg
+  | (l, dnc) :: r => if Nat.eqb l level then (if dnc then ZAbsent else ZPos) else zlit_of r level
+  end.
+
 (** ZBDD: [sat_count_edge(manager, e, num_levels, cache)] *)
 Definition count_zbdd (s : snap) (e : edge) : N :=
   match sat_zbdd s (S (nlevels s)) (nlevels s) (eref e) with Some v => v | None => 0%N end.
